@@ -2,6 +2,12 @@
 
 package type1
 
+import (
+	"math"
+
+	"seehuhn.de/go/postscript/funit"
+)
+
 // Machine-checked contracts for package type1 (read by /verif/govc only;
 // never compiled into a normal build).
 
@@ -66,8 +72,52 @@ func peekReaderWF(r *peekReader) bool {
 //@   (forall j :: 0 <= j && j < old(len(info.seacs)) ==> info.seacs[j].name == old(info.seacs[j].name)) &&
 //@   (forall j :: old(len(info.seacs)) <= j && j < len(info.seacs) ==> info.seacs[j].name == name)
 
+// specR16: hint operands are rounded to whole font units.
+func specR16(x float64) funit.Int16 {
+	return funit.Int16(math.Round(x))
+}
+
+// Stem hints (Type 1 book 6.4): the operands of hstem/hstem3 are relative to
+// the y coordinate of the left side bearing point, those of vstem/vstem3 to
+// its x coordinate; the stored edges are absolute.  stem1: one pair appended;
+// stem3: exactly the three pairs, replacing what was there.
+//@ define stem1(h, n0, sb, s0, s1) = len(h) == n0 + 2 && h[n0] == sb + specR16(s0) && h[n0+1] == h[n0] + specR16(s1)
+//@ define stem3(h, sb, s0, s1, s2, s3, s4, s5) = len(h) == 6 && h[0] == sb + specR16(s0) && h[1] == h[0] + specR16(s1) && h[2] == sb + specR16(s2) && h[3] == h[2] + specR16(s3) && h[4] == sb + specR16(s4) && h[5] == h[4] + specR16(s5)
+
+// Path operators (Type 1 book 6.4).  All operands are relative to the current
+// point; the stored commands carry absolute coordinates.  oneCmd: exactly one
+// command was appended; a move-to first closes an open sub-path.
+//@ define oneCmd(res, n0, op) = len(res.Cmds) == n0 + 1 && res.Cmds[n0].Op == op
+//@ define at2(c, x, y) = len(c.Args) == 2 && c.Args[0] == x && c.Args[1] == y
+//@ define at6(c, xa, ya, xb, yb, xc, yc) = len(c.Args) == 6 && c.Args[0] == xa && c.Args[1] == ya && c.Args[2] == xb && c.Args[3] == yb && c.Args[4] == xc && c.Args[5] == yc
+//@ define lineBy(res, n0, x0, y0, dx, dy, posX, posY, isClosed) = posX == x0 + dx && posY == y0 + dy && oneCmd(res, n0, OpLineTo) && at2(res.Cmds[n0], posX, posY) && !isClosed
+//@ define moveBy(res, n0, wasClosed, x0, y0, dx, dy, posX, posY, isClosed) = posX == x0 + dx && posY == y0 + dy && isClosed && (wasClosed ==> oneCmd(res, n0, OpMoveTo) && at2(res.Cmds[n0], posX, posY)) && (!wasClosed ==> len(res.Cmds) == n0 + 2 && res.Cmds[n0].Op == OpClosePath && res.Cmds[n0+1].Op == OpMoveTo && at2(res.Cmds[n0+1], posX, posY))
+//@ define curveBy(res, n0, x0, y0, dxa, dya, dxb, dyb, dxc, dyc, posX, posY) = posX == x0 + dxa + dxb + dxc && posY == y0 + dya + dyb + dyc && oneCmd(res, n0, OpCurveTo) && at6(res.Cmds[n0], x0 + dxa, y0 + dya, x0 + dxa + dxb, y0 + dya + dyb, posX, posY)
+//@ define opIs(code, k) = len(code) >= 1 && code[0] == k
+//@ define escIs(code, k) = len(code) >= 2 && code[0] == 12 && code[1] == k
+
 //@ func (*decodeInfo).decodeCharString
 //@ requires info != nil
+//@ loop 2 back-when [C06.path.rlineto] opIs(prev(code), 5) && prev(len(stack)) >= 2 ==> lineBy(res, prev(len(res.Cmds)), prev(posX), prev(posY), prev(stack[0]), prev(stack[1]), posX, posY, isClosed)
+//@ loop 2 back-when [C06.path.hlineto] opIs(prev(code), 6) && prev(len(stack)) >= 1 ==> lineBy(res, prev(len(res.Cmds)), prev(posX), prev(posY), prev(stack[0]), 0, posX, posY, isClosed)
+//@ loop 2 back-when [C06.path.vlineto] opIs(prev(code), 7) && prev(len(stack)) >= 1 ==> lineBy(res, prev(len(res.Cmds)), prev(posX), prev(posY), 0, prev(stack[0]), posX, posY, isClosed)
+//@ loop 2 back-when [C06.path.rmoveto] opIs(prev(code), 21) && prev(len(stack)) >= 2 ==> moveBy(res, prev(len(res.Cmds)), prev(isClosed), prev(posX), prev(posY), prev(stack[0]), prev(stack[1]), posX, posY, isClosed)
+//@ loop 2 back-when [C06.path.hmoveto] opIs(prev(code), 22) && prev(len(stack)) >= 1 ==> moveBy(res, prev(len(res.Cmds)), prev(isClosed), prev(posX), prev(posY), prev(stack[0]), 0, posX, posY, isClosed)
+//@ loop 2 back-when [C06.path.vmoveto] opIs(prev(code), 4) && prev(len(stack)) >= 1 ==> moveBy(res, prev(len(res.Cmds)), prev(isClosed), prev(posX), prev(posY), 0, prev(stack[0]), posX, posY, isClosed)
+//@ loop 2 back-when [C06.path.rrcurveto] opIs(prev(code), 8) && prev(len(stack)) >= 6 ==> curveBy(res, prev(len(res.Cmds)), prev(posX), prev(posY), prev(stack[0]), prev(stack[1]), prev(stack[2]), prev(stack[3]), prev(stack[4]), prev(stack[5]), posX, posY)
+//@ loop 2 back-when [C06.path.hvcurveto] opIs(prev(code), 31) && prev(len(stack)) >= 4 ==> curveBy(res, prev(len(res.Cmds)), prev(posX), prev(posY), prev(stack[0]), 0, prev(stack[1]), prev(stack[2]), 0, prev(stack[3]), posX, posY)
+//@ loop 2 back-when [C06.path.vhcurveto] opIs(prev(code), 30) && prev(len(stack)) >= 4 ==> curveBy(res, prev(len(res.Cmds)), prev(posX), prev(posY), 0, prev(stack[0]), prev(stack[1]), prev(stack[2]), prev(stack[3]), 0, posX, posY)
+//@ loop 2 back-when [C06.path.closepath] opIs(prev(code), 9) ==> oneCmd(res, prev(len(res.Cmds)), OpClosePath) && isClosed && posX == prev(posX) && posY == prev(posY)
+//@ loop 2 back-when [C06.path.frame] forall k :: 0 <= k && k < prev(len(res.Cmds)) && k < len(res.Cmds) ==> res.Cmds[k] == prev(res.Cmds[k])
+//@ loop 2 back-when [C06.sb.hsbw] opIs(prev(code), 13) && prev(len(stack)) >= 2 ==> posX == prev(stack[0]) && posY == 0 && LsbX == specR16(prev(stack[0])) && LsbY == 0 && res.WidthX == prev(stack[1]) && res.WidthY == 0 && len(res.Cmds) == prev(len(res.Cmds))
+//@ loop 2 back-when [C06.sb.sbw] escIs(prev(code), 7) && prev(len(stack)) >= 4 ==> posX == prev(stack[0]) && posY == prev(stack[1]) && LsbX == specR16(prev(stack[0])) && LsbY == specR16(prev(stack[1])) && res.WidthX == prev(stack[2]) && res.WidthY == prev(stack[3]) && len(res.Cmds) == prev(len(res.Cmds))
+//@ loop 2 back-when [C06.setcurrentpoint] escIs(prev(code), 33) && prev(len(stack)) >= 2 ==> posX == prev(stack[0]) && posY == prev(stack[1]) && len(res.Cmds) == prev(len(res.Cmds))
+//@ loop 2 back-when [C06.div] escIs(prev(code), 12) && prev(len(stack)) >= 2 ==> len(stack) == prev(len(stack)) - 1 && stack[len(stack)-1] == prev(stack[len(stack)-2]) / prev(stack[len(stack)-1]) && (forall k :: 0 <= k && k < len(stack) - 1 ==> stack[k] == prev(stack[k]))
+//@ loop 2 back-when [C06.hint.hstem] prev(len(code)) >= 1 && prev(code[0]) == 1 && prev(len(stack)) >= 2 ==> stem1(res.HStem, prev(len(res.HStem)), LsbY, prev(stack[0]), prev(stack[1])) && len(res.VStem) == prev(len(res.VStem))
+//@ loop 2 back-when [C06.hint.vstem] prev(len(code)) >= 1 && prev(code[0]) == 3 && prev(len(stack)) >= 2 ==> stem1(res.VStem, prev(len(res.VStem)), LsbX, prev(stack[0]), prev(stack[1])) && len(res.HStem) == prev(len(res.HStem))
+//@ loop 2 back-when [C06.hint.hstem3] prev(len(code)) >= 2 && prev(code[0]) == 12 && prev(code[1]) == 2 && prev(len(stack)) >= 6 ==> stem3(res.HStem, LsbY, prev(stack[0]), prev(stack[1]), prev(stack[2]), prev(stack[3]), prev(stack[4]), prev(stack[5])) && len(res.VStem) == prev(len(res.VStem))
+//@ loop 2 back-when [C06.hint.vstem3] prev(len(code)) >= 2 && prev(code[0]) == 12 && prev(code[1]) == 1 && prev(len(stack)) >= 6 ==> stem3(res.VStem, LsbX, prev(stack[0]), prev(stack[1]), prev(stack[2]), prev(stack[3]), prev(stack[4]), prev(stack[5])) && len(res.HStem) == prev(len(res.HStem))
+//@ loop 2 back-when [C06.hint.sb] prev(len(code)) >= 1 && (prev(code[0]) == 1 || prev(code[0]) == 3 || (prev(code[0]) == 12 && prev(len(code)) >= 2 && (prev(code[1]) == 1 || prev(code[1]) == 2))) ==> LsbX == prev(LsbX) && LsbY == prev(LsbY)
 //@ ensures result1 == nil ==> result0 != nil
 //@ ensures seacsGrow(info, name)
 //@ loop 1 invariant len(cmdStack) <= 10 && len(stack) <= 25 && seacsGrow(info, name)
